@@ -20,6 +20,12 @@
     statement: only queries before the first such time are asserted there, plus `tied_changes_same_for_every_construction`
     (one list, one timeline: the offset form and BpmList.to_timing_map() of the same rows must agree).
 
+    Call - legitimate change - call again (60 % of the cases): after the observations above the SAME objects are changed through public
+    fields / list properties and asked again - every change of the position-form map moved by a (positive or negative) number of ms in
+    place (`queries_follow_shifted_changes.snap_form`: positions -> ms and ms -> positions), the tempo list `to_timing_map()` was called
+    on edited by `list.offset += shift`, then `bpm *= 2; offset /= 2`, then a row appended (`list_edit_then_to_timing_map.shifted /
+    .double_speed / .appended_row / .completes`); the map made before the edits still gives its own answers (`same_map_same_answers.bpm_list`).
+
     Clause ids: <observable>.<construction> with observable in position_to_ms, ms_to_position, grid_time_round_trip,
     offgrid_time_round_trip, cumulative_beats, no_queries, result_in_query_order_second_call, other_map_in_between,
     queries_follow_appended_change and
@@ -51,6 +57,8 @@ BPM_FLOAT = (60.0, 90.0, 120.0, 150.0, 177.5, 200.0, 333.0, 30.0, 7.5, 999.5, 12
 BPM_INT = (60, 120, 150, 200, 300, 100, 75, 50)
 INIT_FLOAT = ("0", "-1234.5", "250", "5000", "-5000", "-0.375", "12.000625", "-98765.4321", "3600000", "10000000.5", "-2500000")
 INIT_INT = ("0", "-1234", "250", "5000", "-5000", "3600000", "10000000", "-2500000")
+SHIFTS_FLOAT = ("1000", "-750.5", "0.125", "-86400000", "3600000.25")
+SHIFTS_INT = ("1000", "-750", "8", "-86400000", "3600000")
 COARSE = (1, 2, 3, 4, 6, 8, 12, 16, 24, 48)
 FINE = (5, 7, 9, 32, 64, 96)
 LIST_CLASSES = ("base", "osu", "sm", "qua", "bms", "o2j")
@@ -199,6 +207,10 @@ def gen_engine_case(rng):
         list_class=rng.choice(LIST_CLASSES),
         labels=rng.choice(("default", "default", "reversed", "gappy", "permuted")),
         rows_via=rng.choice(("items", "from_dict")),
+        # call - legitimate change - call again on the SAME objects: every change moved by this many ms (negative too), then the tempo list
+        # played at double speed (bpm * 2, times / 2), then a row appended
+        shift=rng.choice(SHIFTS_INT if num == "int" else SHIFTS_FLOAT),
+        history=rng.random() < 0.6,
     )
 
 
@@ -406,15 +418,18 @@ def run_engine_case(case):
         construct("snap_form_default_reseat", lambda: TimingMap.from_bpm_changes_snap(number(init), snap_changes()))
     tm_off = construct("offset_form", lambda: TimingMap.from_bpm_changes_offset(offset_changes()))
 
+    made = {}
+
     def bpm_list():
         L, I = _list_class(case["list_class"])
         rows = [dict(offset=number(times_of[i]), bpm=number(changes[i][3]), metronome=number(changes[i][2], True)) for i in order]
         lst = L.from_dict(rows) if case["rows_via"] == "from_dict" else L([I(**r) for r in rows])
         if case["labels"] != "default":
             lst.df.index = _labels(case["labels"], len(rows))  # labels as sorted() / a filter leave them
+        made["list"], made["item"] = lst, I
         return lst.to_timing_map()
 
-    construct("bpm_list", bpm_list)
+    tm_list = construct("bpm_list", bpm_list)
     # one list, one timeline - whatever is in force after changes at one time, it is the same for every construction
     a, b = results.get("offset_form"), results.get("bpm_list")
     if tied and a is not None and b is not None and len(a) == len(b):
@@ -438,6 +453,63 @@ def run_engine_case(case):
             if asserted(i) and not abs(float(got[i]) - float(w)) <= TOL_MS:
                 fails.append((f"other_map_in_between.{con}", f"after a second map was built and queried: query {i} gives {float(got[i])} ms, integration {float(w)} ms"))
                 break
+    # ---- call - legitimate change - call again.  The objects queried above are changed through public fields / list properties and
+    # queried again: the answers are those of the tempo list AS IT IS NOW (nothing remembered from the earlier calls).
+    if case.get("history") and queries:
+        shift = Fraction(case["shift"])
+
+        def compare(what, got, want, how):
+            if len(got) != len(want):
+                fails.append((what, f"{how}: {len(want)} queries, {len(got)} results"))
+                return
+            for i, w in enumerate(want):
+                if asserted(i) and not abs(float(got[i]) - float(w)) <= TOL_MS * max(1.0, abs(float(w)) / 1e9):
+                    fails.append((what, f"{how}: query {i} = measure {queries[i][0]} beat {queries[i][1]} is {float(w)} ms by integration, offsets() gives {float(got[i])} ms"))
+                    return
+
+        # (1) the map made from positions: every change of its list moved by `shift` ms, in place
+        if tm_snap is not None:
+            try:
+                for b in tm_snap.bpm_changes_offset:
+                    b.offset = b.offset + number(shift)
+                compare("queries_follow_shifted_changes.snap_form", tm_snap.offsets(list(q_snaps)), [w + shift for w in want_ms], f"after every change of the map was moved by {float(shift)} ms in place")
+                back = tm_snap.snaps([number(w + shift) for w in want_ms], sn)
+                for i, w in enumerate(want_ms):
+                    wm, wb = tl.position(w)
+                    if asserted(i) and not (int(back[i].measure) == wm and abs(float(Fraction(back[i].beat) - wb)) <= TOL_BEAT):
+                        fails.append(("queries_follow_shifted_changes.snap_form", f"after every change of the map was moved by {float(shift)} ms in place: {float(w + shift)} ms is measure {wm} beat {wb}, snaps() gives measure {back[i].measure} beat {back[i].beat}"))
+                        break
+            except Exception as ex:
+                fails.append(("queries_follow_shifted_changes.snap_form", f"raised {type(ex).__name__}: {ex}"))
+        # (2) the tempo LIST to_timing_map() was called on: offset += shift through the list property, then played at double speed
+        # (bpm *= 2, offset /= 2: the positions stay, every time is halved), then a row appended behind all others on a measure line
+        lst = made.get("list")
+        if tm_list is not None and lst is not None:
+            try:
+                before = tm_list.offsets(list(q_snaps))
+                lst.offset += number(shift)
+                compare("list_edit_then_to_timing_map.shifted", lst.to_timing_map().offsets(list(q_snaps)), [w + shift for w in want_ms], f"{case['list_class']} list.offset += {float(shift)}, to_timing_map() again")
+                lst.bpm *= 2
+                lst.offset /= 2
+                compare("list_edit_then_to_timing_map.double_speed", lst.to_timing_map().offsets(list(q_snaps)), [(w + shift) / 2 for w in want_ms], f"{case['list_class']} list.offset += {float(shift)}; bpm *= 2; offset /= 2, to_timing_map() again")
+                if first_ambiguous is None:
+                    last = tl.c[-1]
+                    m_new = last[0] + 5
+                    new_bpm = Fraction(BPM_INT[(len(changes) + 3) % len(BPM_INT)])
+                    tl3 = Timeline([(c[0], c[1], c[2], c[3] * 2) for c in tl.c] + [(m_new, Fraction(0), last[2], new_bpm)], (init + shift) / 2)
+                    longer = lst.append(made["item"](offset=float(tl3.T[-1]), bpm=float(new_bpm), metronome=float(last[2])))
+                    qs = [(m_new - 1, Fraction(0)), (m_new, Fraction(0)), (m_new + 3, Fraction(0))]
+                    got = longer.to_timing_map().offsets([Snap(number(m, True), beat_value(b), number(last[2], True)) for m, b in qs])
+                    for (m, b), g in zip(qs, got):
+                        if not abs(float(g) - float(tl3.ms(m, b))) <= TOL_MS * max(1.0, abs(float(tl3.ms(m, b))) / 1e9):
+                            fails.append(("list_edit_then_to_timing_map.appended_row", f"after the edits, {float(new_bpm)} bpm appended at {float(tl3.T[-1])} ms (measure {m_new}): measure {m} beat {b} is {float(tl3.ms(m, b))} ms by integration, offsets() {float(g)} ms"))
+                            break
+                # the map made BEFORE the edits is a value of its own: asked again it still answers for the list it was made from
+                again = tm_list.offsets(list(q_snaps))
+                if any(float(x) != float(y) for x, y in zip(before, again)):
+                    fails.append(("same_map_same_answers.bpm_list", f"the map made by to_timing_map() answers {list(before)} and, asked again after later calls, {list(again)}"))
+            except Exception as ex:
+                fails.append(("list_edit_then_to_timing_map.completes", f"raised {type(ex).__name__}: {ex}"))
     # a change appended to the map's list (behind every other change, on a measure line) is a change of the map
     if tm_off is not None and first_ambiguous is None:
         last = tl.c[-1]
@@ -466,7 +538,8 @@ def engine_tempo_list_dimensions(rep):
         "a third on measure lines with one metronome 1..8, a third anywhere on the 1/48 grid with one metronome; bpm 7.5..1200 incl. 123.456789 / 139.86013986013984; a quarter of the lists with python ints, "
         f"a quarter with numpy scalars; initial offset from {list(INIT_FLOAT)}; list handed over in time order / shuffled / reversed; 0, 1, 2, 3, 5 or 8 queries (+ duplicates, shuffled; list / tuple / numpy array): 25% exactly on a change, "
         "7% at position 0, 10% 50..5000 measures behind the last change, the others p/q beats with q <= 96; constructions: from_bpm_changes_snap(reseat=False) and (all on measure lines, no twins) the default, "
-        f"from_bpm_changes_offset, BpmList.to_timing_map() of {list(LIST_CLASSES)} from items / from_dict with default, reversed, gappy, permuted row labels; second query set on the same map; another map built and queried in between; a change appended to the offset-form map's list, then queried; queries on a change on a measure line labelled with any metronome 1..8"
+        f"from_bpm_changes_offset, BpmList.to_timing_map() of {list(LIST_CLASSES)} from items / from_dict with default, reversed, gappy, permuted row labels; second query set on the same map; another map built and queried in between; a change appended to the offset-form map's list, then queried; queries on a change on a measure line labelled with any metronome 1..8; "
+        f"in 60% call - change - call again on the same objects: every change of the position-form map moved in place by a shift from {list(SHIFTS_FLOAT)} ms, the BpmList edited through its properties (offset += shift; bpm *= 2 and offset /= 2; a row appended) with to_timing_map() after each edit"
     )
     rep.rule = "a case is one (tempo list, listing order, query multiset); non-trivial with >= 2 changes and >= 1 query"
     seen = {}
@@ -475,7 +548,8 @@ def engine_tempo_list_dimensions(rep):
             break
         case = gen_engine_case(rng)
         rep.case(case, nontrivial=len(case["changes"]) >= 2 and len(case["queries"]) >= 1)
-        for key in (case["mode"], "num=" + case["num"], "ties" if case["ties"] else "no_ties", "queries=0" if not case["queries"] else "queries>0", "labels=" + case["labels"], "class=" + case["list_class"]):
+        for key in (case["mode"], "num=" + case["num"], "ties" if case["ties"] else "no_ties", "queries=0" if not case["queries"] else "queries>0", "labels=" + case["labels"], "class=" + case["list_class"],
+                    "history" if case.get("history") and case["queries"] else "no_history"):
             seen[key] = seen.get(key, 0) + 1
         for what, det in run_engine_case(case):
             rep.fail(what, case, det)
